@@ -169,10 +169,19 @@ func main() {
 		run(*in, keep, rep)
 		done <- true
 	}()
-	select {
-	case <-done:
-	case <-time.After(900 * time.Second):
-		vio.Fatal("engine hung")
+	// watchdog on progress: a hang is 180 s without a finished case
+	last, lastAt := -1, time.Now()
+	for running := true; running; {
+		select {
+		case <-done:
+			running = false
+		case <-time.After(5 * time.Second):
+			if rep.Cases != last {
+				last, lastAt = rep.Cases, time.Now()
+			} else if time.Since(lastAt) > 180*time.Second {
+				vio.Fatal("engine hung")
+			}
+		}
 	}
 	rep.Emit()
 }
